@@ -196,6 +196,24 @@ def run_one(kind, inp):
                 r = None
         if r is None and len(pts) > 2:
             r = oc.stale_check(pts, hash(tuple(pts)) & 0xFFFFFF, [("findExtremes()", lambda g: tuple(g.findExtremes()))])
+        if r is None and len(pts) > 2:
+            box = lambda g: (lambda b: (b.left, b.bottom, b.right, b.top))(g.bounds())
+            r = oc.repeat_check(pts, [("bounds()", box), ("findExtremes()", lambda g: tuple(g.findExtremes())),
+                                      ("findExtremes(inflections=True)", lambda g: tuple(g.findExtremes(inflections=True)) if len(g.points) == 4 else None)])
+        if r is None and len(pts) > 2:
+            # ... and at path level: ask for the box (twice), then add the extremes
+            from beziers.path import BezierPath
+            a, b = BezierPath.fromSegments([oc.mkseg(pts)]), BezierPath.fromSegments([oc.mkseg(pts)])
+            a.bounds(); a.bounds()
+            try:
+                a.addExtremes()
+                got = [oc.seg_pts(x) for x in a.asSegments()]
+            except Exception as ex:
+                got = "raised %s" % type(ex).__name__
+            b.addExtremes()
+            want = [oc.seg_pts(x) for x in b.asSegments()]
+            if got != want:
+                r = "addExtremes after two bounds() queries gives %r, on a fresh path %r" % (got, want)
         return r
     return check_add_extremes([[tuple(p) for p in s] for s in inp["segs"]], inp["closed"])
 
